@@ -86,7 +86,7 @@ def run(ctx, impl_only=False):
     from deepdiff import DeepDiff
     findings = {f['id']: f for f in core.load_findings(ID) if f.get('status') == 'open'}
     n = 500 if ctx.thorough() else 70
-    keys = ['a', 'b', 'c', 'dd', 'k1', 'x y', 1, 2, 1.5, None, True, '1', '2', '1.5', 'None', "it's", 'say "x"']
+    keys = ['a', 'b', 'c', 'dd', 'k1', 'x y', 1, 2, 1.5, None, True, '1', '2', '1.5', 'None', "it's", 'say "x"', 1.0, 0.0, False, 2.0]
     pairs = FAM.gen_pairs(ctx, n, keys=keys, flat_share=0.15, equal_share=0.0)
     # dicts that hold a non-string key next to the string that spells it (1 / '1', None / 'None', 1.5 / '1.5')
     gk = Gen(ctx.rng, keys=['x', 'y'], max_depth=2, max_width=3)
@@ -169,6 +169,41 @@ def run(ctx, impl_only=False):
                             pass
         if len(ctx.samples) < 4:
             ctx.sample({'t1': repr(t1)[:100], 't2': repr(t2)[:100], 'paths': plist[:5]})
+    # ---- several regular expressions in one call, some precompiled with their own flags: each keeps its own meaning
+    for _ in range(max(8, n // 8)):
+        ks = ['Name', 'name', 'Tag', 'tag', 'x', 'NAME']
+        d1 = {k: ctx.rng.choice([0, 1, 'u', 'v']) for k in ctx.rng.sample(ks, ctx.rng.randint(3, 6))}
+        d2 = {k: (v if ctx.rng.random() < 0.3 else ctx.rng.choice([5, 6, 'w'])) for k, v in d1.items()}
+        for k in ctx.rng.sample(ks, 2):
+            d2.setdefault(k, 9)
+        if ctx.rng.random() < 0.4:
+            t1, t2 = {'rows': [d1, {'Name': 1}], 'meta': {'Tag': 1, 'tag': 2}}, {'rows': [d2, {'Name': 2}], 'meta': {'Tag': 3, 'tag': 4}}
+        else:
+            t1, t2 = d1, d2
+        pats = [re.compile(r"\['name'\]", re.IGNORECASE), r"\['Tag'\]", re.compile(r"\['x'\]$"), r"\['NAME'\]"]
+        for zip_ in (True, False):
+            base_kw = dict(zip_ordered_iterables=zip_, threshold_to_diff_deeper=0, verbose_level=2)
+            try:
+                full = DF.canon_text(DeepDiff(t1, t2, **base_kw), 2)
+            except (OutOfUniverse, DF.BadDiffText):
+                continue
+            for r_ in range(3):
+                chosen = ctx.rng.sample(pats, ctx.rng.randint(2, 3))
+                rx = [re.compile(c) if isinstance(c, str) else c for c in chosen]
+                want = [e for e in full if not (entry_path(e) is not None and any(r.search(entry_path(e)) for r in rx))]
+                case = {'t1': repr(t1), 't2': repr(t2), 'zip': zip_, 'mode': 'regex-set', 'paths': [getattr(c, 'pattern', c) + ('/i' if getattr(c, 'flags', 0) & re.IGNORECASE else '') for c in chosen]}
+                ctx.evaluations += 1
+                try:
+                    got = DF.canon_text(DeepDiff(t1, t2, exclude_regex_paths=list(chosen), **base_kw), 2)
+                except (OutOfUniverse, DF.BadDiffText):
+                    continue
+                except Exception as e:
+                    ctx.violate(case, 'DeepDiff raised %s with several regular expressions' % type(e).__name__); continue
+                ctx.count('mode:regex-set')
+                if got != want:
+                    extra = [e for e in got if e not in want]; missing = [e for e in want if e not in got]
+                    ctx.violate(case, 'a set of regular expressions is not the union of its members: %d entries missing, %d extra (first: %s)' % (
+                        len(missing), len(extra), entry_path((missing + extra)[0])))
     # ---- the default threshold, on pairs where no dictionary level of the unrestricted comparison is "too different" (there the shortcut is
     #      finding F10b): excluding a path can only raise the key overlap, so the filter equation must hold
     low = []
